@@ -115,10 +115,10 @@ AdditionTypes(T) == IF T.k = "SEQ" THEN [j \in 1..Len(AddMembers(T.adds)) |-> Ad
 AdditionHas(env, T, P(_)) == \E j \in 1..Len(AdditionTypes(T)) : TypeHas(env, AdditionTypes(T)[j], P)
 
 AddPresent(n) == \E j \in 1..Len(AddMembers(n.t.adds)) : n.v[AddMembers(n.t.adds)[j].n].p
-\* a non-OPTIONAL, non-DEFAULT addition is absent while another addition is present
+\* a non-OPTIONAL, non-DEFAULT addition is absent while a later addition is present
 MandatoryAdditionAbsent(n) ==
-  /\ AddPresent(n)
-  /\ \E j \in 1..Len(AddMembers(n.t.adds)) : AddMembers(n.t.adds)[j].q = "M" /\ ~n.v[AddMembers(n.t.adds)[j].n].p
+  LET as == AddMembers(n.t.adds)
+  IN \E j, k \in 1..Len(as) : j < k /\ as[j].q = "M" /\ ~n.v[as[j].n].p /\ n.v[as[k].n].p
 \* the number of additions is a positive multiple of 8 and an addition is present
 AdditionsMultipleOf8(n) == Len(AddMembers(n.t.adds)) > 0 /\ Len(AddMembers(n.t.adds)) % 8 = 0 /\ AddPresent(n)
 \* some member that is not mandatory (OPTIONAL / DEFAULT / an addition) is not encoded
